@@ -8,11 +8,14 @@ cd "$(dirname "$0")/.."
 export GOFLAGS=-mod=mod GOPROXY=off GOSUMDB=off GOTOOLCHAIN=local
 [ -x bin/govc ] || ./setup.sh >/dev/null
 FILTER="${1:-}"
-fail=0; n=0
+# SHARD=i/n runs every n-th patch starting at the i-th (0-based), so that several shards can run side by side
+SHARD_I="${SHARD%%/*}"; SHARD_N="${SHARD##*/}"; [ -n "${SHARD:-}" ] || { SHARD_I=0; SHARD_N=1; }
+fail=0; n=0; k=0
 run_one() {
   local patch="$1" kind="$2"
   local name=$(basename "$patch" .patch)
   [ -n "$FILTER" ] && [[ "$name" != *$FILTER* ]] && return
+  k=$((k+1)); [ $(( (k-1) % SHARD_N )) -eq "$SHARD_I" ] || return
   local prop=$(grep -m1 '^# property:' "$patch" | awk '{print $3}')
   local expect=$(grep -m1 '^# expect:' "$patch" | sed 's/^# expect: *//')
   local wt=$(mktemp -d /tmp/govc-selftest-XXXXXX)
